@@ -587,3 +587,39 @@ func vWheelCensus(db *LockDB) (int, int) {
 	}
 	return tw, ew
 }
+
+// ---------------------------------------------------------------- small helpers shared by the drivers
+
+func vEnvInOut(t *testing.T) (string, string) {
+	in, out := os.Getenv("VERIF_IN"), os.Getenv("VERIF_OUT")
+	if in == "" || out == "" {
+		t.Skip("VERIF_IN / VERIF_OUT not set")
+		return "", ""
+	}
+	return in, out
+}
+
+func vReadJSONLines(path string, fn func(line []byte)) {
+	f, err := os.Open(path)
+	if err != nil {
+		panic(err)
+	}
+	defer f.Close()
+	sc := bufio.NewScanner(f)
+	sc.Buffer(make([]byte, 1<<20), 1<<28)
+	for sc.Scan() {
+		line := sc.Bytes()
+		if len(line) == 0 {
+			continue
+		}
+		cp := make([]byte, len(line))
+		copy(cp, line)
+		fn(cp)
+	}
+}
+
+func vMustUnmarshal(b []byte, v interface{}) {
+	if err := json.Unmarshal(b, v); err != nil {
+		panic(err)
+	}
+}
